@@ -25,7 +25,7 @@ def run(ctx):
                        "inputs rejected by date() (ValueError etc.) are not judged here (C35)"]
     q = ctx.quick
     cc.model_check(ctx, "c01_j1", invariants=["Strict", "AtLeastPlus", "Exact"], N=4, T=2 if q else 3,
-                   iters=[0, 1] if q else [0, 1, 2], eps=[0, 1, 2], max_edges=4 if q else 5)
+                   iters=[0, 1] if q else [0, 1, 2], eps=[0, 1, 2], max_edges=4)
     insts = cc.generate(ctx, "c01_j2", N=3 if q else 4, T=2, iters=[0, 1], eps=[0, 1, 2], max_edges=3 if q else 4)
     cap = 1200 if q else 20000
     ctx.exhaustive = len(insts) <= cap
